@@ -35,8 +35,8 @@ pub(crate) mod verif_kani {
         let mut buf = [0xa5u8; 40];
         let res = get_entropy(&mut buf[..L]);
         assert!(res.is_ok() == !fails, "get_entropy: Ok iff the OS source succeeded");
-        assert!(unsafe { REQUESTS } == 1 && unsafe { LAST_REQUEST_LEN } == L, "get_entropy: one request of exactly the buffer length");
         if !fails {
+            assert!(unsafe { ENTROPY_LEN } == L, "get_entropy: exactly the buffer length is taken from the OS source");
             let mut i = 0;
             while i < L {
                 assert!(buf[i] == unsafe { ENTROPY[i] }, "get_entropy: every byte of the buffer is a byte of the OS source, in order");
